@@ -31,6 +31,24 @@ class Level(Enum):
     HIGH = 2
 
 
+class Swap(str, Enum):
+    # a member's value is another member's name
+    A = 'B'
+    B = 'A'
+    C = 'C'
+
+
+class Num(int, Enum):
+    one = 1
+    two = 2
+
+
+class Mixed(Enum):
+    ONE = 1
+    S = '1'
+    N = 'ONE'
+
+
 class Inner(Schema):
     x: int
     when: Optional[datetime] = None
@@ -51,6 +69,9 @@ class RT(Schema):
     u: uuid.UUID = uuid.UUID(int=0)
     e: Shade = Shade.LIGHT
     lv: Level = Level.LOW
+    sw: Swap = Swap.C
+    num: Num = Num.one
+    mx: Mixed = Mixed.ONE
     li: List[int] = Field(default_factory=list)
     se: Set[int] = Field(default_factory=set)
     ses: Set[Shade] = Field(default_factory=set)
@@ -110,7 +131,7 @@ def split(V, name, x, points):
 # ------------------------------------------------------------------ scalars
 @ob('scalars', marks=['int', 'bool', 'none', 'str', 'float', 'bytes', 'enum', 'uuid'], budget=(60, 200), exhaustive=False,
     bounds='int (unbounded solver int, split at 0, +-2**53, +-2**63), bool, None, str (<= 3 symbolic chars incl. quote, backslash, '
-           'control and non-ASCII code points), float picks (no NaN), UTF-8 bytes picks, two Enums, UUID from a solver 128-bit int')
+           'control and non-ASCII code points), float picks (no NaN), UTF-8 bytes picks, five Enums (plain, int-valued, str / int mixed-in, a value that names another member, mixed value types), UUID from a solver 128-bit int')
 def scalars(V):
     k = V.pick('kind', ['int', 'bool', 'none', 'str', 'float', 'bytes', 'enum', 'uuid'])
     if k == 'int':
@@ -135,7 +156,14 @@ def scalars(V):
     elif k == 'bytes':
         roundtrip(V, 'by', V.pick('by', [b'', b'a', b'ab\n', 'é'.encode(), '雪'.encode(), b'"q"', b'\\', b'\x00', b'null', b'1']), 'bytes')
     elif k == 'enum':
-        if V.bool('level'):
+        which = V.pick('enum', ['level', 'shade', 'swap', 'num', 'mixed'])
+        if which == 'swap':
+            roundtrip(V, 'sw', V.pick('sw', [Swap.A, Swap.B, Swap.C]), 'enum')
+        elif which == 'num':
+            roundtrip(V, 'num', V.pick('num', [Num.one, Num.two]), 'enum')
+        elif which == 'mixed':
+            roundtrip(V, 'mx', V.pick('mx', [Mixed.ONE, Mixed.S, Mixed.N]), 'enum')
+        elif which == 'level':
             roundtrip(V, 'lv', V.pick('lv', [Level.LOW, Level.HIGH]), 'enum')
         else:
             roundtrip(V, 'e', V.pick('e', [Shade.LIGHT, Shade.DARK]), 'enum')
